@@ -204,6 +204,26 @@ func (b *builder) rangeOptions(allowByScore bool) (byscore, rev, withscores bool
 		off, cnt = atoi64(o), atoi64(c)
 		opts = append(opts, func() { b.opt("LIMIT"); b.optI(o); b.optI(c) })
 	}
+	// an option may be given more than once (in any letter case): flags are idempotent, the last LIMIT wins. The
+	// repetitions come first, so that the decoded values above stay the ones of the last occurrence.
+	if len(opts) > 0 && b.r.Chance(1, 4) {
+		switch b.r.Intn(3) {
+		case 0:
+			if withscores {
+				b.opt("WITHSCORES")
+			}
+		case 1:
+			if rev {
+				b.opt("REV")
+			}
+		default:
+			if cnt != -1 || off != 0 {
+				b.opt("LIMIT")
+				b.optI(gSmallI(b.r))
+				b.optI(gSmallI(b.r))
+			}
+		}
+	}
 	for len(opts) > 0 {
 		i := b.r.Intn(len(opts))
 		opts[i]()
